@@ -110,7 +110,9 @@ def run_program(job):
             opts = dict(OPTS[pr["opt"]])
             opts[mode] = True
             os.chdir(cwd)
-            tags = sorted([mode] + [t for t in job["tags"] if t.split(":")[0] in ("opt", "alias", "delay")])
+            # class of the failing case = mode + option set; the other features go into the detail text
+            tags = sorted([mode] + [t for t in job["tags"] if t.split(":")[0] == "opt"])
+            feat = " ".join(sorted(t for t in job["tags"] if t.split(":")[0] in ("alias", "delay", "x", "y")))
             try:
                 fresh = a.transfer_model(folder, "P", dict(opts))
             except Exception as e:
@@ -122,12 +124,10 @@ def run_program(job):
                     compiles = True
                 except Exception:
                     compiles = False
-                if not compiles:
-                    return {"records": [], "drift": {}, "compile_failed": "%s: %s" % (type(e).__name__, str(e)[:200])}
-                r = exc_record(e)
-                r.update(observable="exception-on-save", tags=tags)
-                recs.append(r)
-                continue
+                # a program that cannot be compiled or saved never yields a cached model: the property says
+                # nothing about it -> family calibration (machinery), not a violation
+                return {"records": [], "drift": {}, "compile_failed": "%s%s: %s" % (
+                    "" if not compiles else "compiles but cannot be saved - ", type(e).__name__, str(e)[:200])}
             if type(fresh).__name__ != "Model":
                 raise MachineryError("first transfer did not compile")
             try:
@@ -160,7 +160,7 @@ def run_program(job):
             if bad:
                 obs = sorted({b[0] for b in bad})
                 recs.append({"observable": "+".join(obs), "tags": tags, "exception_type": None,
-                             "detail": "cached (%s) model differs from the fresh compile: %s" % (mode, "; ".join(b[1] for b in bad[:3]))[:800]})
+                             "detail": "[%s] cached (%s) model differs from the fresh compile: %s" % (feat, mode, "; ".join(b[1] for b in bad[:3]))[:800]})
             # drift: the stored dependency classification against the spec's prediction
             if mode == "cache":
                 with open(os.path.join(folder, "P.pymoca_cache"), "rb") as f:
